@@ -2002,7 +2002,7 @@ impl World for C19 {
                         "I2 each positional accessor equals model[k]",
                         "I3 iter() yields exactly N items equal to the model in order",
                         "I4 Three's public field equals the model",
-                        "I5 on every live Six/Seven, selection by the identity tuple and by the reversed tuple returns the model's words at those indexes",
+                        "I5 on every live Six/Seven, three standing selections (identity and reversed tuple by method syntax, a scrambled tuple through Permutator::five_from_permutation; opposite order on odd and even steps) return the model's words at their indexes",
                         "frame: every register not named by the operation still satisfies I1-I4 against its unchanged model",
                     ]
                     .iter()
